@@ -754,6 +754,8 @@ class Decompiler(object):
         return clause
 
     def conditional_jump_none_impl(decompiler, endpos, negate):
+        if endpos == decompiler.next_pos:  # the same as in conditional_jump_new(): a constant operand was folded away
+            throw(DecompileError('Constant in a condition is not supported, try to pass query as string'))
         expr = decompiler.stack.pop()
         assert(decompiler.pos < decompiler.conditions_end)
         if decompiler.pos in decompiler.or_jumps:
